@@ -2162,8 +2162,9 @@ impl Kanata {
     }
 
     pub fn is_idle(&self) -> bool {
-        let pressed_keys_means_not_idle =
-            !self.waiting_for_idle.is_empty() || self.live_reload_requested;
+        // A requested live reload does not make held keys count as activity: the reload falls back
+        // to happening after one idle second precisely for the case of a key that is stuck down.
+        let pressed_keys_means_not_idle = !self.waiting_for_idle.is_empty();
         self.layout.b().queue.is_empty()
             && zippy_is_idle()
             && self.layout.b().waiting.is_none()
